@@ -215,6 +215,18 @@ Catalogue == {
   <<"gas_limit_step", "down_one_over", "reject", {}>>,
   <<"gas_limit_step", "double", "reject", {}>>,
   <<"gas_limit_step", "max", "reject", {}>>,
+  <<"gas_limit_step", "plus_2p54", "reject", {}>>,
+  <<"gas_limit_step", "plus_2p54_and_step", "reject", {}>>,
+  <<"gas_limit_step", "plus_3x2p54", "reject", {}>>,
+  <<"gas_limit_step", "plus_1023x2p54", "reject", {}>>,
+  <<"gas_limit_step", "plus_2pk", "reject", {}>>,
+  <<"gas_used_le_limit", "limit_plus_2pk", "reject", {"gas_used_matches"}>>,
+  <<"score_expected", "plus_2pk", "reject", {}>>,
+  <<"score_expected", "plus_2p63", "reject", {}>>,
+  <<"interval_aligned", "plus_2pk", "reject", {"proposer_slot", "not_future"}>>,
+  <<"base_fee_value", "plus_2pk", "reject", {"tx_can_start"}>>,   \* (no tx of the body can pay such a fee)
+  <<"base_fee_value", "plus_2p61", "reject", {"tx_can_start"}>>,   \* (no tx of the body can pay such a fee)
+  <<"base_fee_value", "plus_2p64", "reject", {"tx_can_start"}>>,   \* (no tx of the body can pay such a fee)
   <<"gas_limit_step", "up_exact_bound", "accept", {}>>,
   <<"gas_limit_step", "down_exact_bound", "accept", {}>>,
   <<"gas_limit_floor", "one_below_floor", "reject", {}>>,
@@ -323,6 +335,12 @@ P32   == Mul(P16, P16)
 MaxU32 == Sub(P32, One)
 MaxU64 == Sub(Mul(P32, P32), One)
 Step(c) == DivI(c.par.gl, BoundDivisor)
+\* The rules above are stated over unbounded naturals. The wrap-around departures put a field at a distance from its
+\* legal value at which 64-bit arithmetic wraps: 2^k (the driver rotates k over 32..63; 2^40 stands for it here),
+\* multiples of 2^54 (x * 1024 = 0 mod 2^64), 2^61 (x * 8), 2^63, and 2^64 for the big-integer base fee.
+RECURSIVE Pow2(_)
+Pow2(k) == IF k = 0 THEN One ELSE MulSmall(Pow2(k - 1), 2)
+P2k == Pow2(40)
 
 SetH(c, f, v)  == [c EXCEPT !.h = [@ EXCEPT ![f] = v]]
 SetHs(c, fs)   == [c EXCEPT !.h = [k \in DOMAIN c.h |-> IF k \in DOMAIN fs THEN fs[k] ELSE c.h[k]]]
@@ -361,7 +379,8 @@ Applicable(c, k) ==
        [] k \in {<<"base_fee_absent", "initial_before_galactica">>, <<"base_fee_absent", "zero_before_galactica">>,
                  <<"tx_type_gate", "dynamic_fee_before_galactica">>} -> ~g.galactica
        [] k \in {<<"base_fee_present", "missing_after_galactica">>, <<"base_fee_value", "plus1">>, <<"base_fee_value", "minus1">>,
-                 <<"base_fee_value", "zero">>, <<"base_fee_value", "double">>} -> g.galactica
+                 <<"base_fee_value", "zero">>, <<"base_fee_value", "double">>, <<"base_fee_value", "plus_2pk">>,
+                 <<"base_fee_value", "plus_2p61">>, <<"base_fee_value", "plus_2p64">>} -> g.galactica
        [] k = <<"base_fee_value", "initial_when_higher">> -> g.galactica /\ ~Eq(h.bf, InitialBaseFee)
        [] k = <<"proposer_slot", "previous_slot">> -> GT(Monus(h.ts, FromInt(Interval)), c.par.ts)
        [] k = <<"beneficiary", "endorser_instead_of_staker_set">> -> h.sb = "match"
@@ -408,6 +427,18 @@ Mutate(c, k) ==
        [] k = <<"gas_limit_step", "down_one_over">> -> SetH(c, "gl", Monus(down, One))
        [] k = <<"gas_limit_step", "double">> -> SetH(c, "gl", MulInt(c.par.gl, 2))
        [] k = <<"gas_limit_step", "max">> -> SetH(c, "gl", MaxU64)
+       [] k = <<"gas_limit_step", "plus_2p54">> -> SetH(c, "gl", Add(c.par.gl, Pow2(54)))
+       [] k = <<"gas_limit_step", "plus_2p54_and_step">> -> SetH(c, "gl", Add(up, Pow2(54)))
+       [] k = <<"gas_limit_step", "plus_3x2p54">> -> SetH(c, "gl", Add(c.par.gl, MulSmall(Pow2(54), 3)))
+       [] k = <<"gas_limit_step", "plus_1023x2p54">> -> SetH(c, "gl", Add(c.par.gl, MulSmall(Pow2(54), 1023)))
+       [] k = <<"gas_limit_step", "plus_2pk">> -> SetH(c, "gl", Add(c.par.gl, P2k))
+       [] k = <<"gas_used_le_limit", "limit_plus_2pk">> -> SetHs(c, [gu |-> Add(h.gl, P2k), guok |-> FALSE])
+       [] k = <<"score_expected", "plus_2pk">> -> SetH(c, "score", Add(h.score, P2k))
+       [] k = <<"score_expected", "plus_2p63">> -> SetH(c, "score", Add(h.score, Pow2(63)))
+       [] k = <<"interval_aligned", "plus_2pk">> -> SetH(OffSlot(c, Add(h.ts, P2k)), "future", TRUE)
+       [] k = <<"base_fee_value", "plus_2pk">> -> SetH(c, "bf", Add(h.bf, P2k))
+       [] k = <<"base_fee_value", "plus_2p61">> -> SetH(c, "bf", Add(h.bf, Pow2(61)))
+       [] k = <<"base_fee_value", "plus_2p64">> -> SetH(c, "bf", Add(h.bf, Pow2(64)))
        [] k = <<"gas_limit_step", "up_exact_bound">> -> SetH(c, "gl", up)
        [] k = <<"gas_limit_step", "down_exact_bound">> -> SetH(c, "gl", down)
        [] k = <<"gas_limit_floor", "one_below_floor">> -> SetH(c, "gl", Monus(MinGasLimit, One))
